@@ -149,7 +149,7 @@ fn check(ctx: &mut Ctx, cfg: &Config, ix: &[usize], inputs: &[V], orders: bool, 
         }
     }
     ctx.sample(|| serde_json::json!({"args": case.args, "input": String::from_utf8_lossy(&pipeline::input_text(inputs)), "stdout": obs.out_str()}));
-    if !orders {
+    if !orders && !all_perms {
         return;
     }
     // the result does not depend on the order of the options
